@@ -76,10 +76,13 @@ IndexOf(s, x) == CHOOSE j \in DOMAIN s : s[j] = x
 \*   expand: dim (new), n = dim_size, axis, idim = internal_dim, cvals = labels (Coord form), ivals = indices (Coord internal_dim)
 \*   select/isel: dim, ivals = values / positions, keep = drop;  scalar arithmetic / map: n = the scalar
 \*   transform: dim, ivals = the parameters (func = add), cvals = labels (Coord form), axis
-Reductions == {"sum", "prod", "min", "max", "mean", "std", "rmean", "concatenate", "stack", "flatten"}
+Reductions == {"sum", "prod", "min", "max", "mean", "std", "rmean", "rfirst", "concatenate", "stack", "flatten"}
 Fn(op) == CASE op = "rmean" -> "mean" [] op = "concatenate" -> "concat" [] op = "flatten" -> "stack" [] OTHER -> op
 \* batchable per Arrays!BatchableInModel = {sum, prod, min, max, concat} (C15 ties the marker to the model); mean/std: R2
-AnyBatch == {"sum", "prod", "min", "max", "mean", "std", "concatenate"}
+\* "rfirst" = reduce with a user payload that returns its first argument and carries the marker (first of firsts is the
+\* first: batchable, and order sensitive like concat)
+AnyBatch == {"sum", "prod", "min", "max", "mean", "std", "concatenate", "rfirst"}
+RedApply(op, args, axis) == IF op = "rfirst" THEN args[1] ELSE Apply(Fn(op), args, axis)
 ScalarOps == {"add", "subtract", "multiply", "divide", "power"}
 ActionOps == {"add_a", "subtract_a", "multiply_a", "divide_a"}
 BinName(op) == CASE op \in {"add", "add_a"} -> "add" [] op \in {"subtract", "subtract_a"} -> "subtract"
@@ -123,7 +126,7 @@ Expect(o, A, A2) ==
          IN IF o.op \notin AnyBatch /\ o.n > 1 /\ o.n < n THEN Raise("ValueError")                     \* R2
             ELSE MkDen(IF o.keep THEN A.dims ELSE RemAt(A.dims, p),
                        IF o.keep THEN [A.coords EXCEPT ![p] = <<Free>>] ELSE RemAt(A.coords, p),         \* R1
-                       LAMBDA idx : Apply(Fn(o.op), [k \in 1..n |-> NodeAt(A, IF o.keep THEN [idx EXCEPT ![p] = k - 1]
+                       LAMBDA idx : RedApply(o.op, [k \in 1..n |-> NodeAt(A, IF o.keep THEN [idx EXCEPT ![p] = k - 1]
                                                                                 ELSE InsAt(idx, p, k - 1))], o.axis))
     [] o.op = "map" -> [A EXCEPT !.val = [k \in DOMAIN A.val |-> Binary("multiply", A.val[k], Scalar(QI(o.n)))]]
     [] o.op = "mapeach" -> [A EXCEPT !.val = [k \in DOMAIN A.val |-> Binary("add", A.val[k], Scalar(QI(k - 1)))]]
@@ -174,7 +177,7 @@ PermOf(E, B) == [i \in DOMAIN E.dims |-> Pos(B, E.dims[i])]
 SameDimSet(E, B) == /\ Len(E.dims) = Len(B.dims)
                     /\ \A i \in DOMAIN E.dims : HasDim(B, E.dims[i])
                     /\ \A i, j \in DOMAIN B.dims : i # j => B.dims[i] # B.dims[j]
-Family(op) == CASE op \in {"sum", "prod", "min", "max"} -> "reduce"
+Family(op) == CASE op \in {"sum", "prod", "min", "max", "rfirst"} -> "reduce"
                 [] op \in ScalarOps -> "scalar_arithmetic"
                 [] op \in ActionOps -> "action_arithmetic"
                 [] op \in {"select", "selectl", "isel", "isell"} -> "select"
@@ -216,20 +219,30 @@ Contract(o, A, A2, B) ==
 \* src = [dims, shape, nocoords, kind, off]: node number i (row-major, from 0) holds a vector of three small integers;
 \* kind 1 has no zero entry (divisors); labels of dimension d are 10*d*(1..n) + off, or xarray's default when nocoords
 SrcVec(kind, i) == IF kind = 0 THEN <<i + 1, 2 - i, (i * i) % 4>> ELSE <<i + 1, 0 - (i + 2), (i % 2) + 1>>
-SrcCoords(s) == [d \in DOMAIN s.dims |-> [j \in 1..s.shape[d] |-> IF s.nocoords THEN j - 1 ELSE 10 * d * j + s.off]]
+\* ord: the ORDER of the explicit labels along every dimension - "asc" 10,20,30  "desc" 30,20,10  "shuf" 30,10,20
+\* (a node array is indexed by position; labels need not ascend, e.g. pressure levels 1000, 850, 500).  Every contract
+\* takes the nodes in the coordinate ORDER OF THE NODE ARRAY and leaves the labels untouched.
+Rank(ord, j, n) == CASE ord = "asc" -> j [] ord = "desc" -> n + 1 - j [] ord = "shuf" -> ((j + n - 2) % n) + 1
+SrcCoords(s) == [d \in DOMAIN s.dims |-> [j \in 1..s.shape[d] |-> IF s.nocoords THEN j - 1 ELSE 10 * d * Rank(s.ord, j, s.shape[d]) + s.off]]
 SrcDen(s) == [dims |-> s.dims, coords |-> [d \in DOMAIN s.dims |-> Strs(SrcCoords(s)[d])],
               val |-> [k \in 1..ProdSeq(s.shape) |-> IntArr(<<3>>, SrcVec(s.kind, k - 1))]]
-Src(dims, shape, nc) == [dims |-> dims, shape |-> shape, nocoords |-> nc, kind |-> 0, off |-> 0]
+SrcO(dims, shape, nc, ord) == [dims |-> dims, shape |-> shape, nocoords |-> nc, kind |-> 0, off |-> 0, ord |-> ord]
+Src(dims, shape, nc) == SrcO(dims, shape, nc, "asc")
 NoSrc == [dims |-> <<>>, shape |-> <<>>, nocoords |-> FALSE, kind |-> 0, off |-> 0, coords |-> <<>>]
 SrcJson(s) == [dims |-> s.dims, shape |-> s.shape, nocoords |-> s.nocoords, coords |-> SrcCoords(s),
                vals |-> [k \in 1..ProdSeq(s.shape) |-> SrcVec(s.kind, k - 1)]]
 Sources == IF Tier = "quick"
            THEN {Src(<<"x">>, <<2>>, FALSE), Src(<<"x">>, <<3>>, FALSE), Src(<<"x">>, <<4>>, FALSE), Src(<<"x">>, <<3>>, TRUE),
-                 Src(<<"x", "y">>, <<2, 2>>, FALSE), Src(<<"x", "y">>, <<2, 3>>, FALSE), Src(<<"x", "y">>, <<2, 3>>, TRUE)}
+                 Src(<<"x", "y">>, <<2, 2>>, FALSE), Src(<<"x", "y">>, <<2, 3>>, FALSE), Src(<<"x", "y">>, <<2, 3>>, TRUE),
+                 SrcO(<<"x">>, <<3>>, FALSE, "desc"), SrcO(<<"x">>, <<3>>, FALSE, "shuf"), SrcO(<<"x">>, <<4>>, FALSE, "shuf"),
+                 SrcO(<<"x", "y">>, <<2, 3>>, FALSE, "shuf")}
            ELSE {Src(<<"x">>, <<2>>, FALSE), Src(<<"x">>, <<3>>, FALSE), Src(<<"x">>, <<4>>, FALSE), Src(<<"x">>, <<3>>, TRUE),
                  Src(<<"x">>, <<4>>, TRUE), Src(<<"x", "y">>, <<2, 2>>, FALSE), Src(<<"x", "y">>, <<2, 3>>, FALSE),
-                 Src(<<"x", "y">>, <<2, 2>>, TRUE), Src(<<"x", "y">>, <<2, 3>>, TRUE), Src(<<"x", "y">>, <<3, 2>>, TRUE)}
-DeepSources == {s \in Sources : s.shape \in {<<3>>, <<2, 3>>}}
+                 Src(<<"x", "y">>, <<2, 2>>, TRUE), Src(<<"x", "y">>, <<2, 3>>, TRUE), Src(<<"x", "y">>, <<3, 2>>, TRUE),
+                 SrcO(<<"x">>, <<2>>, FALSE, "desc"), SrcO(<<"x">>, <<3>>, FALSE, "desc"), SrcO(<<"x">>, <<3>>, FALSE, "shuf"),
+                 SrcO(<<"x">>, <<4>>, FALSE, "desc"), SrcO(<<"x">>, <<4>>, FALSE, "shuf"),
+                 SrcO(<<"x", "y">>, <<2, 3>>, FALSE, "desc"), SrcO(<<"x", "y">>, <<2, 3>>, FALSE, "shuf"), SrcO(<<"x", "y">>, <<2, 2>>, FALSE, "desc")}
+DeepSources == {s \in Sources : s.shape \in {<<3>>, <<2, 3>>} /\ (s.ord = "asc" \/ (Tier = "thorough" /\ s.ord = "shuf"))}
 
 \* ------------------------------------------------------------------ domain: operations applicable to a denotation
 O(op, dim, n, keep, axis, idim, ivals, cvals, other) ==
@@ -258,7 +271,7 @@ OpsFor(D, lvl, nc) ==
   IN IF ~SameArrShapes(D) THEN {} ELSE
        red(RedFns(lvl), lvl)
   \cup (IF lite THEN {O("sum", d, 0, TRUE, 0, 0, <<>>, <<>>, NoSrc) : d \in BigDims(D)} ELSE {})
-  \cup (IF full THEN red({"rmean"}, "full") ELSE {})
+  \cup (IF full THEN red({"rmean", "rfirst"}, "full") ELSE {})
   \cup (IF Len(ish) >= 1 THEN red({"concatenate"}, IF full THEN "full" ELSE "lite") \cup (IF lite THEN {} ELSE red({"concatenate"}, "mid")) ELSE {})
   \cup UNION {{O("stack", d, bs, kp, ax, 0, <<>>, <<>>, NoSrc) : <<bs, kp, ax>> \in
                   (IF full THEN BatchSizes(size(d), "full") \X BOOLEAN \X (0..Len(ish)) ELSE {0} \X {FALSE} \X (IF lite THEN {0} ELSE 0..Len(ish)))}
